@@ -65,6 +65,7 @@ func (p *ProjectRunner) init() {
 }
 
 func (p *ProjectRunner) Run() error {
+	verifPointR(p, "run_begin")
 	p.runProcMutex.Lock()
 	p.runningProcesses = make(map[string]*Process)
 	p.runProcMutex.Unlock()
@@ -99,8 +100,10 @@ func (p *ProjectRunner) Run() error {
 		newConf := proc
 		p.runProcess(&newConf)
 	}
+	verifPointR(p, "run_spawned")
 	p.waitGroup.Wait()
 	log.Info().Msg("Project completed")
+	verifPointR(p, "run_return", p.exitCode)
 	if p.exitCode != 0 {
 		err = &ExitError{p.exitCode}
 	}
@@ -141,17 +144,25 @@ func (p *ProjectRunner) runProcess(config *types.ProcessConfig) {
 	)
 	p.addRunningProcess(process)
 	p.waitGroup.Add(1)
+	verifPoint(process, "spawn")
 	go func(proc *Process) {
+		defer verifPoint(proc, "inst_gone")
 		defer p.removeRunningProcess(proc)
+		defer verifPoint(proc, "wg_done")
 		defer p.waitGroup.Done()
+		defer verifPoint(proc, "inst_exit")
+		verifPoint(proc, "inst_begin")
 		if err = p.waitIfNeeded(proc.procConf); err != nil {
 			log.Error().Msgf("Error: %s", err.Error())
 			log.Error().Msgf("Error: process %s won't run", proc.getName())
+			verifPoint(proc, "skip")
 			proc.wontRun()
 			p.onProcessSkipped(proc.procConf)
 		} else {
 			exitCode := proc.run()
+			verifPoint(proc, "run_returned", exitCode)
 			p.addDoneProcess(proc)
+			verifPoint(proc, "inst_done")
 			p.onProcessEnd(exitCode, proc.procConf)
 		}
 	}(process)
@@ -160,6 +171,7 @@ func (p *ProjectRunner) runProcess(config *types.ProcessConfig) {
 func (p *ProjectRunner) waitIfNeeded(process *types.ProcessConfig) error {
 	for k := range process.DependsOn {
 		if proc := p.getDoneOrRunningProcess(k); proc != nil {
+			verifPointR(p, "dep_wait", process.ReplicaName, k, proc)
 			switch process.DependsOn[k].Condition {
 			case types.ProcessConditionCompleted:
 				proc.waitForCompletion()
@@ -167,6 +179,7 @@ func (p *ProjectRunner) waitIfNeeded(process *types.ProcessConfig) error {
 				log.Info().Msgf("%s is waiting for %s to complete successfully", process.ReplicaName, k)
 				exitCode := proc.waitForCompletion()
 				if exitCode != 0 {
+					verifPointR(p, "dep_done", process.ReplicaName, k, false)
 					return fmt.Errorf("process %s depended on %s to complete successfully, but it exited with status %d",
 						process.ReplicaName, k, exitCode)
 				}
@@ -174,19 +187,23 @@ func (p *ProjectRunner) waitIfNeeded(process *types.ProcessConfig) error {
 				log.Info().Msgf("%s is waiting for %s to be healthy", process.ReplicaName, k)
 				ready := proc.waitUntilReady()
 				if !ready {
+					verifPointR(p, "dep_done", process.ReplicaName, k, false)
 					return fmt.Errorf("process %s depended on %s to become ready, but it was terminated", process.ReplicaName, k)
 				}
 			case types.ProcessConditionLogReady:
 				log.Info().Msgf("%s is waiting for %s log line %s", process.ReplicaName, k, proc.procConf.ReadyLogLine)
 				ready := proc.waitUntilLogReady()
 				if !ready {
+					verifPointR(p, "dep_done", process.ReplicaName, k, false)
 					return fmt.Errorf("process %s depended on %s to become ready, but it was terminated", process.ReplicaName, k)
 				}
 			case types.ProcessConditionStarted:
 				log.Info().Msgf("%s is waiting for %s to start", process.ReplicaName, k)
 				proc.waitForStarted()
 			}
+			verifPointR(p, "dep_done", process.ReplicaName, k, true)
 		} else {
+			verifPointR(p, "dep_wait", process.ReplicaName, k, nil)
 			log.Error().Msgf("Error: process %s depends on %s, but it isn't running or completed", process.ReplicaName, k)
 		}
 
@@ -197,15 +214,19 @@ func (p *ProjectRunner) waitIfNeeded(process *types.ProcessConfig) error {
 func (p *ProjectRunner) onProcessEnd(exitCode int, procConf *types.ProcessConfig) {
 	if (exitCode != 0 && procConf.RestartPolicy.Restart == types.RestartPolicyExitOnFailure) ||
 		procConf.RestartPolicy.ExitOnEnd {
+		verifPointR(p, "exit_trigger", procConf.ReplicaName, exitCode)
 		_ = p.ShutDownProject()
 		p.exitCode = exitCode
+		verifPointR(p, "exit_code_set", exitCode)
 	}
 }
 
 func (p *ProjectRunner) onProcessSkipped(procConf *types.ProcessConfig) {
 	if procConf.RestartPolicy.ExitOnSkipped {
+		verifPointR(p, "exit_trigger", procConf.ReplicaName, 1)
 		_ = p.ShutDownProject()
 		p.exitCode = 1
+		verifPointR(p, "exit_code_set", 1)
 	}
 }
 
@@ -333,6 +354,7 @@ func (p *ProjectRunner) removeRunningProcess(process *Process) {
 
 func (p *ProjectRunner) StartProcess(name string) error {
 	proc := p.getRunningProcess(name)
+	verifPointR(p, "start_checked", name, proc != nil)
 	if proc != nil {
 		log.Error().Msgf("Process %s is already running", name)
 		return fmt.Errorf("process %s is already running", name)
@@ -349,6 +371,7 @@ func (p *ProjectRunner) StartProcess(name string) error {
 func (p *ProjectRunner) StopProcess(name string) error {
 	log.Info().Msgf("Stopping %s", name)
 	proc := p.getRunningProcess(name)
+	verifPointR(p, "stop_checked", name, proc)
 	if proc == nil {
 		if _, ok := p.project.Processes[name]; !ok {
 			log.Error().Msgf("Process %s does not exist", name)
@@ -388,6 +411,7 @@ func (p *ProjectRunner) StopProcesses(names []string) (map[string]string, error)
 func (p *ProjectRunner) RestartProcess(name string) error {
 	log.Debug().Msgf("Restarting %s", name)
 	proc := p.getRunningProcess(name)
+	verifPointR(p, "restart_checked", name, proc)
 	if proc != nil {
 		err := proc.shutDownNoRestart()
 		if err != nil {
@@ -395,6 +419,7 @@ func (p *ProjectRunner) RestartProcess(name string) error {
 			return err
 		}
 		time.Sleep(proc.getBackoff())
+		verifPointR(p, "restart_stopped", name)
 	}
 
 	if processConfig, ok := p.project.Processes[name]; ok {
@@ -504,6 +529,7 @@ func (p *ProjectRunner) shutDownInOrder(wg *sync.WaitGroup, shutdownOrder []*Pro
 			waitForDepsWg.Wait()
 			log.Debug().Msgf("[%s]: waited for all dependencies to shut down", proc.getName())
 
+			verifPoint(proc, "ordered_go")
 			err := proc.shutDown()
 			if err != nil {
 				log.Err(err).Msgf("failed to shutdown %s", proc.getName())
@@ -537,7 +563,9 @@ func (p *ProjectRunner) shutDownAndWait(shutdownOrder []*Process) {
 }
 
 func (p *ProjectRunner) ShutDownProject() error {
+	verifPointR(p, "shutdown_call")
 	p.runProcMutex.Lock()
+	verifPointR(p, "shutdown_begin")
 	defer p.runProcMutex.Unlock()
 
 	shutdownOrder := []*Process{}
@@ -563,11 +591,13 @@ func (p *ProjectRunner) ShutDownProject() error {
 		nameOrder = append(nameOrder, v.getName())
 	}
 	log.Debug().Msgf("Shutting down %d processes. Order: %q", len(shutdownOrder), nameOrder)
+	verifPointR(p, "shutdown_order", nameOrder)
 	for _, proc := range shutdownOrder {
 		proc.prepareForShutDown()
 	}
 
 	p.shutDownAndWait(shutdownOrder)
+	verifPointR(p, "shutdown_end")
 	p.cancelAppFn()
 	return nil
 }
